@@ -171,6 +171,13 @@ type wDL struct {
 	Fault       string `json:"fault,omitempty"`        // adversarial action on one data answer
 	FaultOffset int64  `json:"fault_offset,omitempty"` // request offset whose answer is altered
 	FaultOcc    int    `json:"fault_occurrence,omitempty"`
+	// Honest-server behaviours the hash protocol leaves open: HashOrder "reversed" = every vector of hashes (answers to
+	// get*FileHashes, redirect.file_hashes, reupload answers) is sent in descending offset order; HashEnd "repeat-last" =
+	// a hash request at or beyond the end of the file is answered with the last window again instead of an empty vector;
+	// HashBatch = windows per answer (0 = 3).
+	HashOrder string `json:"hash_order,omitempty"`
+	HashEnd   string `json:"hash_end,omitempty"`
+	HashBatch int    `json:"hash_batch,omitempty"`
 }
 
 type hashWin struct {
@@ -227,7 +234,40 @@ func (s *server) plain(off int64, limit int) []byte {
 	return reffiles.Bytes(seed, off, int(n))
 }
 
+// hashAnswer is the answer to a get*FileHashes request: hashesFrom with the witness's batch size, end-of-file behaviour.
+func (s *server) hashAnswer(off int64) ([]tg.FileHash, error) {
+	s.mu.Lock()
+	s.hashReq++
+	n := s.hashReq
+	s.mu.Unlock()
+	if n > 20000 {
+		// liveness guard only (a downloader that never stops asking): fail the download, errors are always acceptable
+		return nil, errors.New("mock: more than 20000 hash requests")
+	}
+	max := 3
+	if s.w.HashBatch > 0 {
+		max = s.w.HashBatch
+	}
+	out := s.hashesFrom(off, max)
+	if len(out) == 0 && s.w.HashEnd == "repeat-last" && len(s.wins) > 0 {
+		hw := s.wins[len(s.wins)-1]
+		h := sha256.Sum256(reffiles.Bytes(seed, hw.off, hw.n))
+		out = []tg.FileHash{{Offset: hw.off, Limit: hw.lim, Hash: h[:]}}
+	}
+	return out, nil
+}
+
 func (s *server) hashesFrom(off int64, max int) []tg.FileHash {
+	out := s.hashesFromSorted(off, max)
+	if s.w.HashOrder == "reversed" {
+		for i, j := 0, len(out)-1; i < j; i, j = i+1, j-1 {
+			out[i], out[j] = out[j], out[i]
+		}
+	}
+	return out
+}
+
+func (s *server) hashesFromSorted(off int64, max int) []tg.FileHash {
 	var out []tg.FileHash
 	for _, hw := range s.wins {
 		if hw.off+int64(hw.n) <= off {
@@ -380,17 +420,11 @@ func (s *server) UploadGetFile(_ context.Context, r *tg.UploadGetFileRequest) (t
 }
 
 func (s *server) UploadGetFileHashes(_ context.Context, r *tg.UploadGetFileHashesRequest) ([]tg.FileHash, error) {
-	s.mu.Lock()
-	s.hashReq++
-	s.mu.Unlock()
-	return s.hashesFrom(r.Offset, 3), nil
+	return s.hashAnswer(r.Offset)
 }
 
 func (s *server) UploadGetCDNFileHashes(_ context.Context, r *tg.UploadGetCDNFileHashesRequest) ([]tg.FileHash, error) {
-	s.mu.Lock()
-	s.hashReq++
-	s.mu.Unlock()
-	return s.hashesFrom(r.Offset, 3), nil
+	return s.hashAnswer(r.Offset)
 }
 
 func (s *server) UploadReuploadCDNFile(_ context.Context, r *tg.UploadReuploadCDNFileRequest) ([]tg.FileHash, error) {
@@ -636,6 +670,13 @@ func main() {
 			"chunk's plaintext / ciphertext} on the k-th answer to each data request offset seen in the honest run). distinct = distinct witnesses; runs in which " +
 			"the action could not be applied count as trivial. Oracle: if the download reports success, the output equals the genuine file byte for byte " +
 			"(stream: the written sequence; parallel: the resulting file); every upload.getCdnFile range is valid.")
+		c.Rule("family download, added dimensions: (B) hash answers an honest server may give - vectors in descending offset order (get*FileHashes answers, redirect.file_hashes, reupload answers), " +
+			"1 / 3 / 100 windows per answer, a hash request at the end of the file answered with an empty vector or with the last window again (11 non-default combinations) x 3 modes x " +
+			"(part size, window) {(8K,4K),(4K,8K),(12K,8K),(16K,4K irregular)} x sizes {100,ps+100,3ps,3ps+4196,6ps+100} x last-window limit {actual, nominal} x 3 sinks, honest; in the two verifier-queue " +
+			"modes also {bit flip, truncate by 1, another chunk's plaintext} on the first answer to every data request for the three single deviations (stream and parallel 3; quick: nominal limits only). " +
+			"(A) files of 40 (thorough 100) hash windows + 100 bytes - longer than the 16-entry verified-window cache - with part sizes that split every window or every second one " +
+			"{(4K,8K),(12K,8K),(20K,16K)}, inline CDN verification, 3 sinks, honest, with a bit flip on the first answer to every data request (stream), and with a token refresh / master fallback in mid-file. " +
+			"Same oracle (honest runs that deliver other bytes: class <mode>:honest-run-wrong-bytes).")
 		c.Assume("the master DC (hashes, redirects, tokens, master-served ranges) is honest; only data answers of the CDN DC (or, in master-verified mode, of upload.getFile) " +
 			"are adversarial; one adversarial action per download; reference AES-CTR written from core.telegram.org/cdn on crypto/aes; errors are always acceptable " +
 			"outcomes for this property (liveness under honest servers belongs to C33)")
@@ -777,6 +818,95 @@ func main() {
 							}
 						}
 					}
+				}
+			}
+		}
+		// expand: the honest download of base on every sink, plus each fault on the first answer to every data request
+		// offset seen in an honest stream run (faultSinks).
+		expand := func(base wDL, faults []string, faultSinks []sk) {
+			for _, s := range sinks {
+				w := base
+				w.Sink, w.Threads = s.sink, s.th
+				ws = append(ws, w)
+			}
+			if len(faults) == 0 {
+				return
+			}
+			ref := base
+			ref.Sink, ref.Threads = "stream", 1
+			srv, _, _ := runDownload(ref)
+			seen := map[int64]bool{}
+			var offs []int64
+			for _, r := range srv.reqLog {
+				if !seen[r[0]] {
+					seen[r[0]] = true
+					offs = append(offs, r[0])
+				}
+			}
+			sort.Slice(offs, func(i, j int) bool { return offs[i] < offs[j] })
+			for _, s := range faultSinks {
+				for _, off := range offs {
+					for _, f := range faults {
+						w := base
+						w.Sink, w.Threads, w.Fault, w.FaultOffset = s.sink, s.th, f, off
+						ws = append(ws, w)
+					}
+				}
+			}
+		}
+		// (B) hash answers an honest server may give: order of a vector, windows per answer, answer at the end of the file
+		type hv struct {
+			order, end string
+			batch      int
+		}
+		var hvs []hv
+		for _, o := range []string{"", "reversed"} {
+			for _, e := range []string{"", "repeat-last"} {
+				for _, b := range []int{0, 1, 100} {
+					if o != "" || e != "" || b != 0 {
+						hvs = append(hvs, hv{o, e, b})
+					}
+				}
+			}
+		}
+		for _, mode := range []string{"cdn-inline", "cdn-verified", "master-verified"} {
+			for _, g := range []geo{{8 * kib, 4 * kib, false, false}, {4 * kib, 8 * kib, false, false}, {12 * kib, 8 * kib, false, false}, {16 * kib, 4 * kib, true, false}} {
+				p := int64(g.ps)
+				for _, size := range []int64{100, p + 100, 3 * p, 3*p + 4196, 6*p + 100} {
+					for _, nominal := range []bool{false, true} {
+						for _, h := range hvs {
+							base := wDL{Mode: mode, Size: size, PartSize: g.ps, Window: g.win, Irregular: g.irr, LastNominal: nominal,
+								HashOrder: h.order, HashEnd: h.end, HashBatch: h.batch}
+							var faults []string
+							// adversarial answers only where no class-level known finding exists (not cdn-inline), and only for
+							// the three single-dimension deviations
+							single := (h.order != "" && h.end == "" && h.batch == 0) || (h.order == "" && h.end != "" && h.batch == 0) || (h.order == "" && h.end == "" && h.batch == 1)
+							if mode != "cdn-inline" && single && (c.Thorough() || nominal) {
+								faults = []string{"flip-mid", "trunc-1", "swap-plain"}
+							}
+							expand(base, faults, []sk{{"stream", 1}, {"parallel", 3}})
+						}
+					}
+				}
+			}
+		}
+		// (A) files longer than the verified-window cache (16 windows) with part sizes that split hash windows
+		longWins := 40
+		if c.Thorough() {
+			longWins = 100
+		}
+		for _, g := range []geo{{4 * kib, 8 * kib, false, false}, {12 * kib, 8 * kib, false, false}, {20 * kib, 16 * kib, false, false}} {
+			for _, nominal := range []bool{false, true} {
+				base := wDL{Mode: "cdn-inline", Size: int64(longWins*g.win) + 100, PartSize: g.ps, Window: g.win, LastNominal: nominal}
+				var faults []string
+				if nominal {
+					faults = []string{"flip-mid"} // bit flips only: the other actions are covered by class-level known findings in this mode
+				}
+				expand(base, faults, []sk{{"stream", 1}})
+				for _, tev := range []string{"token", "fallback"} {
+					w := base
+					w.Event, w.EventOffset = tev, int64(20*g.win/g.ps)*int64(g.ps) // a chunk start in mid-file
+					expand(w, nil, nil)
 				}
 			}
 		}
